@@ -2,7 +2,7 @@
 From Coq Require Import NArith List Bool.
 Import ListNotations.
 From DV Require Import Base.Outcome Base.Bytes Base.Lex Base.Names.
-From DV Require Import C17.Model C17.Proofs C18.Model C14.Gen C14.Model C14.Proofs C14.ProofsDenial C14.ProofsSig C14.ProofsL2H C14.ModelN3 C14.ProofsN3 C14.ModelChain C14.ProofsChain C14.ModelDs C14.ProofsDs C14.ModelTa C14.ProofsTa C14.ModelWild C14.ProofsWild C14.ProofsDname C14.ModelNode C14.ProofsNode.
+From DV Require Import C17.Model C17.Proofs C18.Model C14.Gen C14.Model C14.Proofs C14.ProofsDenial C14.ProofsSig C14.ProofsL2H C14.ModelN3 C14.ProofsN3 C14.ModelChain C14.ProofsChain C14.ModelDs C14.ProofsDs C14.ModelTa C14.ProofsTa C14.ModelWild C14.ProofsWild C14.ProofsDname C14.ModelNode C14.ProofsNode C14.ModelCache C14.ProofsCache C14.ModelGroups C14.ProofsGroups.
 Local Open Scope N_scope.
 
 Theorem C14_nsec_in_range_spec : forall t o n,
@@ -382,3 +382,29 @@ Theorem C14_ds_reply_insecure_only_with_proof : forall H ci cb t cn gs,
   cn = NoCname /\ exists g, In g gs /\ (nsec_no_ds_proof t g \/ nsec3_no_ds_proof H ci cb t g).
 Proof. exact ds_reply_insecure_only_with_proof. Qed.
 Print Assumptions C14_ds_reply_insecure_only_with_proof.
+
+(* ---- the node cache path *)
+Theorem C14_get_node_sound : forall now ta_owner ta_node mk_child c n r,
+  get_node now ta_owner ta_node mk_child c n = Ok r ->
+  suffix_of (l_zone r) n /\
+  (l_from_cache r = true -> exists nd, cache_get c (l_zone r) = Some nd /\ l_node r = nd /\
+                                       node_usable (cn_created nd) (cn_valid_for nd) now = true) /\
+  (closest_skips_intermediate = true -> cn_intermediate ta_node = false ->
+   Forall (fun cl => cn_intermediate (snd cl) = false) (l_calls r)).
+Proof. exact get_node_sound. Qed.
+Print Assumptions C14_get_node_sound.
+
+Theorem C14_intermediate_signer_refuted : closest_skips_intermediate = false ->
+  exists now ta_node mk c n r, get_node now [] ta_node mk c n = Ok r /\
+    exists cl, In cl (l_calls r) /\ cn_intermediate (snd cl) = true.
+Proof. exact intermediate_signer_refuted. Qed.
+Print Assumptions C14_intermediate_signer_refuted.
+
+(* ---- grouping records into RRsets with their signatures *)
+Theorem C14_signature_attached_only_to_covered_rrset : forall rs g s,
+  In g (groupset_of rs) -> In s (m_sigs g) ->
+  r_is_sig s = true /\
+  forall r, In r (m_rrs g) -> r_is_sig r = false /\ name_eqb (r_owner r) (r_owner s) = true /\
+                              r_class r = r_class s /\ r_type r = r_type s.
+Proof. exact signature_attached_only_to_covered_rrset. Qed.
+Print Assumptions C14_signature_attached_only_to_covered_rrset.
